@@ -1,6 +1,8 @@
 """C01 -- TL1 binary round trip of generated Go code."""
 from vlib import *
 from gencommon import *
+import os as _os
+OP_LIMIT_ENV = dict(_os.environ, VERIF_OP_LIMIT="10")   # per-operation time limit of the extracted model (ocaml/conv.ml)
 
 PROPS = "Props/C01"
 FAMILY = "tl1"
@@ -143,7 +145,7 @@ def run(ctx, props=PROPS, random_only=False, nrand=None, leg=None):
             st["oversized_values_skipped"] = st.get("oversized_values_skipped", 0) + len(big)
             rw = [x for x in rw if len(x[0]) <= 262144]
         lines = [x[0] for x in rw]
-        rc1, mo, err1 = run_lines(ref, [str(u.ir_path)], lines)
+        rc1, mo, err1 = run_lines(ref, [str(u.ir_path)], lines, env=OP_LIMIT_ENV)
         rc2, go, err2 = run_lines(u.gen.exe, [], lines, timeout=900)
         if rc1 != 0 or rc2 != 0 or len(mo) != len(lines) or len(go) != len(lines):
             uerr.append((u.name, f"driver failed: model rc={rc1} go rc={rc2} {err1[-200:]} {err2[-300:]}"))
@@ -153,7 +155,7 @@ def run(ctx, props=PROPS, random_only=False, nrand=None, leg=None):
             return
         st["rw_ops"] += len(lines)
         lines0 = [l.replace("rw1 1 ", "rw1 0 ", 1) for l in lines] if u.san else None
-        mo0 = run_lines(ref, [str(u.ir_path)], lines0)[1] if lines0 else None
+        mo0 = run_lines(ref, [str(u.ir_path)], lines0, env=OP_LIMIT_ENV)[1] if lines0 else None
         kf = []
         for i, (l, m, g) in enumerate(zip(lines, mo, go)):
             f = l.split(" ")
